@@ -35,7 +35,7 @@ def run(rep, tier):
                       "max_abs": sums["mx"], "mask_digits": sums["nm"], "variance_x1000": (sums["s2"] * 1000) // max(1, sums["n"])})
         rep.evaluations += sums["n"]
         rep.distinct += nev
-        if sums["n"] < 16384:
+        if sums["n"] < 16384 and not bad:        # (a panic of the code under test is reported below, not a tool error)
             raise ToolError("C06: only %d error coefficients for %s" % (sums["n"], d["layout"]))
         for k, kind in bad:
             key = "stat:%s:%s%s b=%s rank=%s be=%s" % (kind, d["layout"], (":" + d["part"]) if "part" in d else "", d["b"], d["rank"], d.get("be"))
